@@ -9,7 +9,7 @@ use std::io::{Read, Write};
 use std::net::Shutdown;
 use std::time::{Duration, Instant};
 
-pub const WAYS: [&str; 8] = ["close", "quit", "quitq", "midrequest", "protoerr", "oversize", "idle", "idlemid"];
+pub const WAYS: [&str; 9] = ["close", "quit", "quitq", "midrequest", "protoerr", "oversize", "idle", "idlemid", "reset"];
 
 struct Conn {
     id: u64,
@@ -68,7 +68,8 @@ pub fn gen_scenario(rng: &mut SmallRng, limit: u32) -> Value {
             // end a connection: mostly one that is being served (the oldest ones), sometimes a waiting one
             let i = if rng.gen_bool(0.8) { rng.gen_range(0..std::cmp::min(open.len(), limit as usize)) } else { rng.gen_range(0..open.len()) };
             let id = open.remove(i);
-            let mut way = if i >= limit as usize { "close" } else { *WAYS.choose(rng).unwrap() };
+            // (a waiting client just goes away: orderly, or with a reset - it may still sit in the listen queue then)
+            let mut way = if i >= limit as usize { if rng.gen_bool(0.5) { "close" } else { "reset" } } else { *WAYS.choose(rng).unwrap() };
             // every scenario has both kinds of idle ending (they are the slow ones: once each, first)
             if i < limit as usize && idles == 0 {
                 way = "idlemid";
@@ -157,7 +158,7 @@ pub fn run_scenario_on(sc: &Value, port: u16, hooks: bool, out: &mut dyn Write, 
                         None => continue,
                     };
                     let was_answered = conns[idx].answered;
-                    let way = if was_answered { way } else { "close".to_string() };
+                    let way = if was_answered || way == "reset" { way } else { "close".to_string() };
                     let mut ok = true;
                     {
                         let c = &mut conns[idx].c;
@@ -205,10 +206,26 @@ pub fn run_scenario_on(sc: &Value, port: u16, hooks: bool, out: &mut dyn Write, 
                                 let (_b, eof) = read_eof(c, Duration::from_millis(timeout as u64 * 1000 + 5000));
                                 ok = eof;
                             }
+                            "reset" => {
+                                // SO_LINGER 0: closing sends RST instead of FIN
+                                let sock = socket2::SockRef::from(&c.s);
+                                let _ = sock.set_linger(Some(Duration::from_secs(0)));
+                            }
                             _ => {
                                 let _ = c.s.shutdown(Shutdown::Both);
                             }
                         }
+                    }
+                    if way == "reset" {
+                        // really close the descriptor (the Conn keeps its Client): swap in a socket connected to a
+                        // throw-away listener of our own
+                        if let Ok(l) = std::net::TcpListener::bind("127.0.0.1:0") {
+                            if let Ok(dummy) = std::net::TcpStream::connect(l.local_addr().unwrap()) {
+                                let old = std::mem::replace(&mut conns[idx].c.s, dummy);
+                                drop(old);
+                            }
+                        }
+                        std::thread::sleep(Duration::from_millis(20));
                     }
                     conns[idx].ended = true;
                     evs.push((seq(), json!({"e": "end", "id": id, "way": way, "ok": ok, "served": was_answered})));
